@@ -17,7 +17,7 @@ COLS = ["loads_min", "loads_max", "S_min", "S_max", "epsilon_min", "epsilon_max"
         "R", "epsilon_min_LF", "epsilon_max_LF"]
 FLAGS = ["is_closed_hysteresis", "is_zero_mean_stress_and_strain", "run_index"]
 REQUIRED_CLASSES = {t: ["law:neuber_binned", "law:seegerbeste_binned", "memory1", "memory2", "memory3",
-                        "depth>=4", "multi:2..6_points", "multi:dyadic", "multi:general_ratio", "multi:load_ratio>100", "negation", "load_step_labels:descending", "load_step_labels:shuffled", "node_ids:descending",
+                        "depth>=4", "multi:2..6_points", "multi:dyadic", "multi:general_ratio", "multi:load_ratio>100", "magnitude:tiny_loads", "negation", "load_step_labels:descending", "load_step_labels:shuffled", "node_ids:descending",
                         "node_ids:shuffled_large"]
                     for t in ("quick", "thorough")}
 REQUIRED_MONITORS = ["stream==reversals_of_repeated_sequence", "rows:count", "rows:flags", "rows:values", "strain_values",
@@ -73,6 +73,9 @@ def generate(ctx):
             s = rng.uniform(-400, 400, size=L).round(1).tolist()
         if len(set(s)) < 2:
             continue
+        if rng.random() < 0.12:
+            # a hardly loaded point (or loads given in another unit): everything stays elastic, ratios and flags are the same
+            s = [v * 2.0 ** -30 for v in s]
         r = rng.random()
         kind = "neuber" if rng.random() < 0.5 else "seegerbeste"
         binned = True     # the detector reads `.values` of what the law returns: only Binned (pandas in, pandas out) fits that interface
@@ -84,6 +87,10 @@ def generate(ctx):
 def _close(a, b, atol, rtol):
     if isinstance(a, float) and isinstance(b, float) and math.isnan(a) and math.isnan(b):
         return True
+    if a == b:                                       # equal infinities (R of a hysteresis with S_max = 0)
+        return True
+    if math.isinf(a) or math.isinf(b):
+        return False
     return abs(a - b) <= atol + rtol * abs(b)
 
 
@@ -98,6 +105,8 @@ def run_case(case, ctx):
     seq = [float(v) for v in case["seq"]]
     E_, K_, n_ = MATERIALS[case["mat"]]
     mx = max(abs(v) for v in seq)
+    if mx < 1e-3:
+        ctx.tag("magnitude:tiny_loads")
     law = hcm.make_law(case["law"], case["binned"], mx, case["bins"], E_, K_, n_, case["kp"])
     ctx.tag(f"law:{case['law']}_{'binned' if case['binned'] else 'exact'}")
     hcm.reset()
